@@ -32,6 +32,9 @@ typedef struct {
     int64_t msg_len_prev[2];
     uint64_t raw_out_of_window;
     uint32_t trace;           /* HTP_VERIF_TRACE sites that fired with this tx */
+    uint64_t put_len, put_hash;   /* bytes handed to REQUEST_FILE_DATA for a PUT body (htp_file_t source HTP_FILE_PUT) */
+    uint64_t raw_hash[4];     /* running hash of the concatenated raw header/trailer data (req hdr, req trl, res hdr, res trl) */
+    uint64_t raw_len[4];
 } txrec;
 
 typedef struct {
@@ -239,11 +242,14 @@ static void dump_tx(runctx *x, txrec *t) {
               (int) tx->response_transfer_coding, (int) tx->response_content_encoding, (int) tx->response_content_encoding_processing);
     hb_puts(b, ",\"res_ct\":"); hb_json_bstr(b, tx->response_content_type);
     hb_printf(b, ",\"flags\":%llu,\"mph\":%d,\"req_progress\":%d,\"res_progress\":%d,\"req_rep\":%u,\"res_rep\":%u",
-              (unsigned long long) (tx->flags & ~HTP_MULTI_PACKET_HEAD), (tx->flags & HTP_MULTI_PACKET_HEAD) ? 1 : 0,
+              (unsigned long long) (tx->flags & ~HTP_MULTI_PACKET_HEAD), ((tx->flags & HTP_MULTI_PACKET_HEAD) && !(x->dump_flags & HX_DUMP_SEG)) ? 1 : 0,
               (int) tx->request_progress, (int) tx->response_progress, tx->req_header_repetitions, tx->res_header_repetitions);
     hb_puts(b, ",\"req_body\":"); dump_body(x, b, t, 0);
     hb_puts(b, ",\"res_body\":"); dump_body(x, b, t, 1);
-    hb_printf(b, ",\"txc\":%d", t->txc_count);
+    hb_printf(b, ",\"put_file\":[%llu,\"%016llx\"]", (unsigned long long) t->put_len, (unsigned long long) t->put_hash);
+    hb_printf(b, ",\"txc\":%d,\"raw\":[%llu,%llu,%llu,%llu],\"raw_h\":\"%016llx%016llx%016llx%016llx\"", t->txc_count,
+              (unsigned long long) t->raw_len[0], (unsigned long long) t->raw_len[1], (unsigned long long) t->raw_len[2], (unsigned long long) t->raw_len[3],
+              (unsigned long long) t->raw_hash[0], (unsigned long long) t->raw_hash[1], (unsigned long long) t->raw_hash[2], (unsigned long long) t->raw_hash[3]);
     if (tx->request_mpartp != NULL) {
         htp_multipart_t *mp = htp_mpartp_get_multipart(tx->request_mpartp);
         if (mp != NULL) {
@@ -399,7 +405,10 @@ static txrec *on_tx_event2(runctx *x, int hk, htp_tx_t *tx, int side, int rank, 
         if (side == 1 && rank == RK_LINE) t->res_line_count++;
     }
     progress_sample(x, t);
-    /* event list: coalesce runs of the same raw-data event */
+    /* event list: coalesce runs of the same raw-data event; in segmentation mode the raw header/trailer
+     * receivers, which by design fire once per input chunk, are compared by content instead (raw_hash) */
+    int is_raw = (hk == HK_REQUEST_HEADER_DATA || hk == HK_REQUEST_TRAILER_DATA || hk == HK_RESPONSE_HEADER_DATA || hk == HK_RESPONSE_TRAILER_DATA);
+    if ((x->dump_flags & HX_DUMP_SEG) && is_raw) return t;
     if (!(t->events.n > 0 && (unsigned char) t->events.p[t->events.n - 1] == ev &&
           !evflag && (hk == HK_REQUEST_HEADER_DATA || hk == HK_REQUEST_BODY_DATA || hk == HK_REQUEST_TRAILER_DATA ||
            hk == HK_RESPONSE_HEADER_DATA || hk == HK_RESPONSE_BODY_DATA || hk == HK_RESPONSE_TRAILER_DATA)))
@@ -535,6 +544,8 @@ static int data_event(runctx *x, int hk, htp_tx_data_t *d, int side, int is_body
             /* raw header/trailer data: only required not to follow TRANSACTION_COMPLETE (checked in on_tx_event);
              * position relative to the phase hooks is recorded, not judged (DESIGN.md C05) */
             if (t->rank[side] >= RK_COMPLETE) t->raw_out_of_window++;
+            int ri = side * 2 + ((hk == HK_REQUEST_TRAILER_DATA || hk == HK_RESPONSE_TRAILER_DATA) ? 1 : 0);
+            if (d->data != NULL) { t->raw_hash[ri] = hx_hash(d->data, d->len, t->raw_hash[ri]); t->raw_len[ri] += d->len; }
         }
     }
     x->sig = hx_hash(&h, sizeof h, x->sig);
@@ -569,7 +580,10 @@ static int cb_request_file_data(htp_file_data_t *d) {
         if (d->file != NULL && d->file->filename != NULL) touch(bstr_ptr(d->file->filename), bstr_len(d->file->filename), 0);
         htp_tx_t *tx = x->connp ? x->connp->in_tx : NULL;
         txrec *t = tx ? tx_find(x, tx) : NULL;
-        if (t && d->data != NULL && t->files.n + d->len <= BODY_KEEP) hb_put(&t->files, d->data, d->len);
+        if (t && d->data != NULL) {
+            if (d->file != NULL && d->file->source == HTP_FILE_PUT) { t->put_len += d->len; t->put_hash = hx_hash(d->data, d->len, t->put_hash); }
+            else if (t->files.n + d->len <= BODY_KEEP) hb_put(&t->files, d->data, d->len);
+        }
     }
     return scripted_rc(x, HK_REQUEST_FILE_DATA);
 }
